@@ -1,6 +1,7 @@
 import LeaspyVerif.Proto
 import LeaspyVerif.Model.Sampler
-open LeaspyVerif LeaspyVerif.Proto LeaspyVerif.Sampler
+import LeaspyVerif.Model.Blocks
+open LeaspyVerif LeaspyVerif.Proto LeaspyVerif.Sampler LeaspyVerif.Blocks
 
 /-
 requests (floats are `f<uint64 bits of the double>`; values of float32 tensors are sent as the
@@ -13,6 +14,15 @@ double with the same value and converted back exactly with `Float.toFloat32` whe
         → acc=<b,…> val=<f,…;…> usedz=<n> usedu=<n>                   | err:draws
   dec tinv=<f> u=<f> dA=<f> dR=<f>      → <0|1> alpha=<f>
   alpha u=<f> a=<f>                      → <0|1>
+  blocks kind=<G|F|M> shape=<d,…|_> [mask=<b,…>] [order=<i,…>]
+        → ctor=<ok|err:index|err:model|err:notimpl> stdshape=<d,…> n=<numel> nb=<#blocks>
+          idx=<i,…;…> zshape=<d,…;…> coords=<i,…;…> std=<i,…> keep=<n|b,…;…> moved=<i,…;…> nz=<n> nu=<n>
+      (`Model/Blocks.lean`; G = Gibbs, F = FastGibbs, M = Metropolis-Hastings; shape `_` = 0-d; the mask
+       is flat row-major, one 0/1 per entry; `order` = positions of the unshuffled iterator list in
+       visiting order, identity when absent — if it is not a permutation of the model's positions the answer is
+       `err:order ` followed by the unshuffled answer; the block fields describe the loop of `sample` whatever
+       `ctor` says, i.e. what the methods do once an instance exists; `nb` disambiguates `_`)
+  indblocks n=<n> shape=<d,…|_>          → same fields, rows of the `(n, *shape)` individual variable
 -/
 
 /-- dt=64 (joint model: float64 `tau`, `xi`): the change `std * randn` is a float32 product
@@ -62,6 +72,50 @@ def runInd {α} [Mul α] [Add α] (ofF : Float → α) (toF : α → Float) (arg
   | some r =>
     some s!"acc={fmtList (fun (x : List α × Bool) => fmtBool x.2) r.rows} val={fmtList2 (fun x => fmtFloat (toF x)) (r.rows.map (·.1))} usedz={z.length - r.zs.length} usedu={u.length - r.us.length}"
 
+def fmtKeep (k : Option (List Bool)) : String :=
+  match k with
+  | none => "n"
+  | some ks => fmtList fmtBool ks
+
+def fmtBlocks (ctor : String) (stdsh : Shape) (n : Nat) (bs : List Blk) : String :=
+  let d := sweepDraws bs
+  s!"ctor={ctor} stdshape={fmtList toString stdsh} n={n} nb={bs.length} idx={fmtList2 toString (bs.map (·.idx))} zshape={fmtList2 toString (bs.map (·.zshape))} coords={fmtList2 toString (bs.map (·.coords))} std={fmtList toString (bs.map (·.stdIdx))} keep={fmtList fmtKeep (bs.map (·.keep)) ";"} moved={fmtList2 toString (bs.map Blk.perturbed)} nz={d.1} nu={d.2}"
+
+def isPermOfRange (σ : List Nat) (n : Nat) : Bool :=
+  σ.length == n && σ.all (· < n) && (List.range n).all (fun i => σ.contains i)
+
+def runBlocks (args : List String) : Option String := do
+  let k ← match kv args "kind" with
+    | some "G" => some Kind.gibbs
+    | some "F" => some Kind.fastGibbs
+    | some "M" => some Kind.mh
+    | _ => none
+  let shape ← (kv args "shape") >>= parseList parseNat
+  let mask ← match kv args "mask" with
+    | none => some none
+    | some m => (parseList parseBool m).map some
+  if let some m := mask then
+    if m.length != numel shape then none
+  let bs := blocksOf k shape mask
+  let σ ← match kv args "order" with
+    | none => some (List.range bs.length)
+    | some o => parseList parseNat o
+  let ctor := match construct k shape mask with
+    | .ok () => "ok"
+    | .error .index => "err:index"
+    | .error .model => "err:model"
+    | .error .notImplemented => "err:notimpl"
+  -- an order that is not a permutation of the model's iterator positions: answer the unshuffled blocks, flagged
+  if !isPermOfRange σ bs.length then
+    some ("err:order " ++ fmtBlocks ctor (stdShape k shape) (numel shape) bs)
+  else
+    some (fmtBlocks ctor (stdShape k shape) (numel shape) (reorder σ bs))
+
+def runIndBlocks (args : List String) : Option String := do
+  let n ← (kv args "n") >>= parseNat
+  let shape ← (kv args "shape") >>= parseList parseNat
+  some (fmtBlocks "ok" [n] (n * numel shape) (indBlocks n shape))
+
 def handle (line : String) : String :=
   match line.splitOn " " with
   | "pop" :: args =>
@@ -87,6 +141,8 @@ def handle (line : String) : String :=
       let u ← (kv args "u") >>= parseFloat
       let a ← (kv args "a") >>= parseFloat
       some (fmtBool (acceptAlpha u a))).getD "bad-request"
+  | "blocks" :: args => (runBlocks args).getD "bad-request"
+  | "indblocks" :: args => (runIndBlocks args).getD "bad-request"
   | _ => "bad-request"
 
 def main : IO Unit := loop handle
